@@ -68,12 +68,23 @@ def main(argv=None):
     reported = {}  # signature -> record
     known_hit = {}
     finalize = getattr(H, "finalize", None)
-    tri_budget = time.time() + float(os.environ.get("VERIF_TRIAGE_S", "240"))
+    tri_budget = time.time() + float(os.environ.get("VERIF_TRIAGE_S", "120"))
+    presig = getattr(H, "presig", None)
+    groups = {}
     for v in total.violations:
-        if time.time() > tri_budget and (reported or known_hit):
-            total.notes.add("triage budget exhausted; remaining raw violations not minimised")
+        try:
+            k = presig(v) if presig is not None else base.stable_hash(v.get("failure"))
+        except Exception:
+            k = base.stable_hash(v.get("case"))
+        groups.setdefault(k, []).append(v)
+    # one representative per group first, then (budget permitting) the rest
+    queue = [g[0] for g in groups.values()] + [v for g in groups.values() for v in g[1:3]]
+    for qi, v in enumerate(queue):
+        raw = v
+        over = time.time() > tri_budget or len(reported) >= 30
+        if over and qi >= len(groups):
             break
-        if finalize is not None:
+        if finalize is not None and not over:
             try:
                 v = finalize(v)
             except Exception as e:  # harness bug in the minimiser: keep the raw one
@@ -82,7 +93,8 @@ def main(argv=None):
         if v is None:
             # did not reproduce on replay: harness nondeterminism, never a VIOLATION
             herr += 1
-            print("HARNESS-NONDETERMINISM property=%s (a raw violation did not reproduce on replay)" % prop)
+            print("HARNESS-NONDETERMINISM property=%s (a raw violation did not reproduce on replay): %s"
+                  % (prop, json.dumps(raw, default=base._json_default)[:600]))
             continue
         sig = v.get("signature") or base.stable_hash(v.get("case"))
         hit = None
